@@ -41,6 +41,11 @@ import (
 )
 
 func main() {
+	if os.Getenv("VERIF_C04_PROBE") != "" {
+		log.SetOutput(io.Discard)
+		probe()
+		return
+	}
 	ev.Main("C04", "fault_enumeration",
 		"files (single-zip, multi-zip via forced max zip size, periodic content with repeated chunk refs, same content under two names, just under/over the 512 KiB threshold) are written with perkeep's file writer and uploaded through blobserver.Receive in seeded orders (schema blob first/middle/last, chunks shuffled, duplicate uploads) into blobpacked over inject-wrapped memory small/large/meta; every lower-layer call index k of upload+packing is a crash point (freeze), every distinct (durable state, acked set) is restarted under none/fast/full recovery and with meta wiped, audited against the reference map, then removes + restart + re-upload + restart; a case is distinct per (history, crash state, recovery)",
 		run)
